@@ -394,7 +394,7 @@ class Gen:
         self.ns, self.nu, self.nwf = 2, 1, (1 if f["weak"] else 0)
         sp = "%d %d %d" % (self.ns, self.nu, self.nwf)
         scripts, kinds, ops = {}, {}, []
-        cands = ["mixed", "nestedfin"]
+        cands = ["mixed", "nestedfin", "tailcycle"]
         if f["fin"]:
             cands += ["findrop", "bufthr"]
         if f["weak"]:
@@ -467,6 +467,31 @@ class Gen:
             else:
                 ops += ["drop h0"]
             ops += ["new h2 %s 0 0 0" % sp, "down h2 w2", "unwrap h2", "up w2 h3", "wdrop w2", "collect"]
+        elif t == "tailcycle":
+            # a garbage cycle G holds the last outside pointer to another cycle L <-> M through something tracing does not
+            # follow (an untraced field, an acyclic object behind one, a pointer captured by a cleaning action): when the
+            # collector drops G, the drop glue's `Cc::drop` must buffer L, or L <-> M is never looked at again
+            ops += ["new h0 %s 0 0 0" % sp, "new h1 %s 0 0 0" % sp, "new h2 %s 0 0 0" % sp, "setf h1 f0 h2", "setf h2 f0 h1"]
+            via = r.choice(["u", "tail", "cap"] if f["clean"] else ["u", "tail"])
+            if via == "u":
+                ops += ["setf h0 u0 h1"]
+            elif via == "tail":
+                ops += ["new h3 %s 0 0 0" % sp, "setf h3 %s h1" % r.choice(["f0", "u0"]), "setf h0 u0 h3", "drop h3"]
+            else:
+                scripts[1] = []
+                kinds[1] = "action"
+                ops[ops.index("new h0 %s 0 0 0" % sp)] = "new h0 %s 1 0 0" % sp
+                ops += ["reg h0 1 c0 h1"] + (["cdrop c0"] if r.random() < 0.5 else [])
+            if r.random() < 0.5:
+                ops += ["new h4 %s 0 0 0" % sp, "setf h0 f0 h4", "setf h4 f0 h0", "drop h4"]
+            else:
+                ops += ["setf h0 f0 h0"]
+            order = ["drop h1", "drop h2"]
+            r.shuffle(order)
+            ops += order
+            if r.random() < 0.4:
+                ops += ["collect"]
+            ops += ["drop h0"] + ["collect"] * r.randrange(2, 4)
         elif t == "downroot":
             # an object that was downgraded once is owned (traced) by a buffered live owner: collections must keep it
             scripts[1] = []
